@@ -660,7 +660,15 @@ func (d *dtree) evalInstr(st *dstate, v ssa.Value) *Sym {
 		}
 		return o
 	case *ssa.Lookup:
-		return &Sym{K: "atom", S: fmt.Sprintf("%s[%s]", d.eval(st, x.X), d.eval(st, x.Index))}
+		// a map can change between two lookups of the same key (other goroutines, calls in between):
+		// every lookup is its own atom, later ones are numbered
+		txt := fmt.Sprintf("%s[%s]", d.eval(st, x.X), d.eval(st, x.Index))
+		st.ncall["lookup "+txt]++
+		if n := st.ncall["lookup "+txt]; n > 1 {
+			txt = fmt.Sprintf("@%d %s", n, txt)
+		}
+		st.calls = append(st.calls, "lookup "+txt)
+		return &Sym{K: "atom", S: txt}
 	case *ssa.MakeClosure:
 		return &Sym{K: "const", S: "closure " + FuncName(x.Fn.(*ssa.Function))}
 	case *ssa.IndexAddr:
